@@ -111,9 +111,21 @@ func readAbs(file []byte, ts spec.TypeSpec, typ reflect.Type, failAt *int) ([]sp
 	return readAbsErr(file, ts, typ, failAt, errSentinel)
 }
 
+// Reads alternate (as a function of the file's bytes) between a bytes.Reader, a
+// small bufio.Reader and readers that return a few bytes per call.
+
 func readAbsErr(file []byte, ts spec.TypeSpec, typ reflect.Type, failAt *int, cbErr error) ([]spec.AbsVal, error) {
 	var got []spec.AbsVal
-	err := avro.ReadFile(bytes.NewReader(file), reflect.New(typ).Elem().Interface(), func(val unsafe.Pointer, rb *avro.ResourceBank) error {
+	// a pure function of the bytes read, so that a replay uses the same reader
+	h := len(file)
+	for i := 0; i < len(file) && i < 64; i++ {
+		h = h*31 + int(file[len(file)-1-i])
+	}
+	if h < 0 {
+		h = -h
+	}
+	kind := []int{0, 0, 1, 2, 0, 4}[h%6]
+	err := avro.ReadFile(makeReader(kind, file), reflect.New(typ).Elem().Interface(), func(val unsafe.Pointer, rb *avro.ResourceBank) error {
 		got = append(got, spec.Abs(ts, false, reflect.NewAt(typ, val).Elem()))
 		if failAt != nil && len(got)-1 == *failAt {
 			return cbErr
